@@ -29,6 +29,7 @@ def required(tier):
     b.update({f'fprof:{k}': 2 for k in ('box', 'gaussian', 'multi', 'lorentzian', 'voigt', 'sinc2', 'custom_abs')})
     b.update({f'bp:{k}': 2 for k in work_sig.BP_KINDS})
     b.update({f'bound:{k}': 2 for k in set(work_sig.BOUND_KINDS)})
+    b.update({'bounding-range-form:' + k: 30 for k in ('plain-tuple', 'Hz', 'kHz', 'MHz', 'GHz-list', 'plain-list')})
     b.update({'orient:asc': 10, 'orient:desc': 10, 'array-path-with-smearing': 2, 'validation-probe': 10,
               'bp-array:restricted-grid-length-equals-fchans': 10})
     return {'buckets': b, 'counters': {'pixels_compared': 10000, 'add_signal_calls': 100}, 'checks': 300, 'nontrivial': 50}
@@ -77,7 +78,26 @@ def call_add_signal(fr, stg, spec, opts, brange, ref, lo, hi, R=None):
     path, tprof, fprof, bp = rsig.lib_args(stg, spec, ts, np.append(ts, ts[-1] + fr.dt), fs, lo, hi, opts, ref)
     kw = dict(opts)
     if brange is not None:
-        kw['bounding_f_range'] = tuple(brange)
+        # the range as a caller has it: plain numbers or astropy quantities in any frequency unit, tuple or list (the strata are
+        # chosen from the numbers themselves so that every caller of this function covers them)
+        from astropy import units as u
+        form = int(abs(brange[0]) * 7 + abs(brange[1])) % 6
+        lo_f, hi_f = float(brange[0]), float(brange[1])
+        if form == 1:
+            br = (lo_f * u.Hz, hi_f * u.Hz)
+        elif form == 2:
+            br = ((lo_f * 1e-3) * u.kHz, (hi_f * 1e-3) * u.kHz)
+        elif form == 3:
+            br = ((lo_f * 1e-6) * u.MHz, (hi_f * 1e-6) * u.MHz)
+        elif form == 4:
+            br = [(lo_f * 1e-9) * u.GHz, (hi_f * 1e-9) * u.GHz]
+        elif form == 5:
+            br = [lo_f, hi_f]
+        else:
+            br = (lo_f, hi_f)
+        if R is not None:
+            R.bucket('bounding-range-form:' + ['plain-tuple', 'Hz', 'kHz', 'MHz', 'GHz-list', 'plain-list'][form])
+        kw['bounding_f_range'] = br
     # caller-owned arrays handed to the library (C06 checks that they come back unchanged: "and nothing else")
     ref._caller_arrays = [(nm, a, np.array(a, copy=True)) for nm, a in (('path', path), ('t_profile', tprof), ('bp_profile', bp))
                           if isinstance(a, np.ndarray)]
